@@ -4,7 +4,7 @@
    Trace_Brush.tla (validation of what the real transform returned).
 
    A pixel <<x, y>> of an X x Y grid is coded as the integer 64*x + y, a brush offset <<dx, dy>> as
-   64*dx + dy (X, Y <= 16, |dx|, |dy| <= 4).  Codes add like vectors, and a position that left the grid
+   64*dx + dy (X, Y <= 48, |dx|, |dy| <= 4).  Codes add like vectors, and a position that left the grid
    never has the code of a grid pixel, so "p + b \in G" is the in-domain test.                         *)
 EXTENDS Integers, Sequences, FiniteSets, TLC
 
